@@ -287,6 +287,28 @@ theorem rulesOK_examples_off (o : Opts) (d : Doc) :
   · simp [h, enabled]
   · rw [option_examples_only o true v h]; simp [h]
 
+/-- **C04, characterisation.** For every option set, the model of `Validate` accepts a document exactly
+when no violation that is in force sits at a node the code reaches — provided no node the code reaches is
+in one of the three local exclusion classes. With the `option_*_only` theorems above (an option changes the
+status of its own rule only) this is "each validation option switches off only the check it names" for all
+six options at once. -/
+theorem accepted_iff_no_violation_in_force (T : Table) (o : Opts) (d : Doc) (hT : TableOK T = true)
+    (hex : ∀ n, Reach (active T o) d n → exclLocal T o n = false) :
+    validate T o d = true ↔ ∀ n, Reach (active T o) d n → ∀ v ∈ violations n, enabled o v = false := by
+  have hr : ∀ n, rulesOK o n = true ↔ ∀ v ∈ violations n, enabled o v = false := by
+    intro n; unfold rulesOK; rw [List.all_eq_true]; simp
+  constructor
+  · intro hv n hn
+    have hall := (validate_iff T o d).mp hv
+    have hwf := examplesWFor_of_valid T o hT n (fun m hm => hall m (hn.trans hm))
+    rw [← hr, ← localOKV_eq_rules T o n hT (hex n hn) hwf]
+    exact hall n hn
+  · intro h
+    rw [validate_iff]
+    intro n hn
+    have hwf := examplesWFor_of_reached_rules T o hT n (fun m hm => (hr m).mpr (h m (hn.trans hm)))
+    exact localOK_of_rulesOK T o n _ hT hwf ((hr n).mpr (h n hn))
+
 /-- **C04 (c), partial.** `option_only_its_check` for `DisableExamplesValidation`: with the option set,
 the document is accepted exactly when every violation at a node the code reaches is either not in force
 under the other options or is the example rule. -/
